@@ -6,7 +6,7 @@ import numpy as np
 from ..core import CheckSpec, Outcome, Lean, rat
 
 def gen(rng: random.Random, tier: str):
-    n = {"quick": 50, "thorough": 1500}[tier]
+    n = {"quick": 50, "thorough": 6000}[tier]
     for k in range(n):
         nu, ni = rng.randint(3, 9), rng.randint(3, 8)
         explicit = rng.random() < 0.6
@@ -133,4 +133,4 @@ SPEC = CheckSpec(
              + [f"LK.KNN.C09_KNN2_{n}" for n in ["simRowTrunc_sub", "simRowTrunc_top", "simRowTrunc_length", "simBlocks_blocksize_indep", "simBlocks_eq_rows"]],
     correspondence_ops=["c09.sim_rows", "c09.item_score", "c09.user_score"],
     nontrivial_rule="distinct (dataset, configuration) reaching ≥1 of: item/user × explicit/implicit, neighbourhood larger than k, stored-neighbour truncation, min_nbrs > 1, small block size",
-    budgets={"quick": 50, "thorough": 1500}, gen=gen, run=run, shrink=shrink)
+    budgets={"quick": 50, "thorough": 6000}, gen=gen, run=run, shrink=shrink)
